@@ -207,6 +207,7 @@ func cmdCheck(args []string) int {
 	solver := fs.String("solver", "z3", "")
 	cross := fs.String("cross", "", "second back end that re-decides every obligation (cvc5 | z3-new); default: VERIF_CROSS")
 	only := fs.String("only", "", "restrict to harnesses containing this substring (debug)")
+	override := fs.String("p", "", "k=v,k=v: override tier parameters (exploration of bounds; recorded in the evidence)")
 	fs.Parse(args)
 	if fs.NArg() != 1 {
 		fmt.Println("usage: gosym check [--tier quick|thorough] <property id>")
@@ -248,6 +249,20 @@ func cmdCheck(args []string) int {
 	if *tier == "thorough" {
 		tr = spec.Thorough
 		timeout = 60000
+	}
+	if *override != "" {
+		np := map[string]int{}
+		for k, v := range tr.Params {
+			np[k] = v
+		}
+		for _, kv := range strings.Split(*override, ",") {
+			if k, v, ok := strings.Cut(kv, "="); ok {
+				var n int
+				fmt.Sscan(v, &n)
+				np[k] = n
+			}
+		}
+		tr.Params = np
 	}
 	var harnesses []string
 	for name := range p.Pkg.Members {
